@@ -105,6 +105,8 @@ pub fn evaluate(c: &Case) -> Option<Verdict> {
         Mtime::At(s, _) if s + 5 >= reqgen::now_secs() => return None,
         Mtime::At(s, _) => Some(s),
         Mtime::Future(..) => return None,
+        // HTTP-dates (as this stack reads and writes them) start at the epoch: outside the premise.
+        Mtime::Before(..) => return None,
     };
     let etag = c.etag.as_ref().map(|t| &t.0[..]);
     let pf = match &c.if_match {
